@@ -230,7 +230,8 @@ CHECKS = {
               "boundary operand classes {0, 1, 2, 3, 5, p-1, p-2, 2^64+-1, 2^128-1, 2^192-1, (p+-1)/2, Montgomery R, R^2, "
               "2^384 mod p, random}: add, sub, mul (by value and assigning), neg, square, cube, double, invert, batched "
               "inversion, pow (constant-time and vartime, one- and two-limb exponents), sqrt (incl. embedded base-field "
-              "residues and non-residues in the extensions), parity, equality, canonical encodings (round trip, decoders at "
+              "residues and non-residues in the extensions), the quadratic-residue test (Legendre symbol and its constant-time flags, "
+              "judged by Euler's criterion, zero included), parity, equality, canonical encodings (round trip, decoders at "
               "p-2..p+2 and all-ones), reduction from 64 uniform bytes, published constants; about 16 700 calls logged with "
               "integer arguments and results. Field_Trace recomputes every result over BigNat (Z/m; F_p[u]/(u^2+1)) and checks "
               "the defining equations of the constants (two-adicity, generator a non-residue, root of unity of exact order "
